@@ -37,7 +37,9 @@ RULE = ("md-grid: 1-3 independent subdomains (general-polygon grids with 3/4/5/6
         "Cartesian hexahedra) or a fractured md-grid of pvm.gen.mdg (with interfaces); "
         "1-4 exported time steps (indices may cross a power of ten), default or explicit "
         "times, binary or ascii files, scalar and 2/3-component vector data on subdomains "
-        "and interfaces given by key or by (grid, key, array) tuples; non-trivial = at "
+        "and interfaces given by key or by (grid, key, array) tuples; constant data exported "
+        "separately, redefined (all or some grids) or extended by a key between 2-4 "
+        "exports; non-trivial = at "
         "least two subdomains or two cell shapes; distinct = case hash")
 _EX = "viz/exporter.py"
 REACH = [
@@ -60,6 +62,7 @@ REQUIRED = {"imports:collection_pvd": 10, "imports:mdg_pvd": 10, "imports:vtu": 
             "entities_compared:interface": 4, "groups:mixed_cell_shapes": 4,
             "groups:several_subdomains": 4, "time_information_round_trips": 10,
             "time_information_repeated_time": 3,
+            "constants:imports": 10, "constants:redefinitions": 3,
             "tmpdirs_removed": 10}
 ASSUMPTIONS = [
     "file names follow the exporter's convention (prefix without trailing number)",
@@ -486,11 +489,92 @@ def _run(case, mon, tmp):
         _compare(mon, world, s, "import_state_from_vtu", poly_unsorted=poly_unsorted)
 
 
+def _constants(case, mon, tmp):
+    """Constant-in-time cell data exported to separate files and (re)defined between
+    exports: the import of a step restores the values that were current when it was written."""
+    import porepy as pp
+    rng = np.random.default_rng([3839, int(case["seed"])])
+    mdg = cg.build(case["grid"])
+    sds = list(mdg.subdomains(return_data=True))
+    intfs = list(mdg.interfaces(return_data=True, codim=1))
+    ents = [("subdomain", i, e, d) for i, (e, d) in enumerate(sds)] + \
+           [("interface", i, e, d) for i, (e, d) in enumerate(intfs)]
+    if max(e.num_cells for _, _, e, _ in ents) >= 1000 or len(ents) >= 100:
+        return
+    tmp = tmp / "const"
+    prefix = case["prefix"]
+    ex = pp.Exporter(mdg, prefix, folder_name=tmp, binary=bool(case["binary"]),
+                     export_constants_separately=True)
+    nsteps = int(rng.integers(2, 5))
+    version = 0
+    current: dict = {}          # (kind, i, key) -> array, as handed to the exporter last
+    at_step: list = []          # snapshot of `current` per written step
+    for s in range(nsteps):
+        defs = []
+        if s == 0 or rng.random() < 0.7:
+            # (re)definition of the key "kc" on all, or on a random subset of, the grids
+            subset = s > 0 and rng.random() < 0.3
+            version += 1
+            for kind, i, e, d in ents:
+                if subset and rng.random() < 0.5:
+                    continue
+                v = encode(version, i, e.num_cells, 1)
+                defs.append((e, "kc", v))
+                current[(kind, i, "kc")] = v
+            mon.count("constants:redefinitions" if s > 0 else "constants:definitions")
+        if s > 0 and rng.random() < 0.3 and not any(k[2] == "kd" for k in current):
+            version += 1
+            for kind, i, e, d in ents:
+                v = encode(version, i, e.num_cells, 1)
+                defs.append((e, "kd", v))
+                current[(kind, i, "kd")] = v
+            mon.count("constants:key_added_later")
+        if defs:
+            ex.add_constant_data(defs)
+        var = [(e, "p", encode(50 + s, i, e.num_cells, 1)) for kind, i, e, d in ents]
+        ex.write_vtu(var, time_step=s)
+        at_step.append({k: v.copy() for k, v in current.items()})
+    ex.write_pvd()
+
+    def imported(what, s, fn):
+        for kind, i, e, d in ents:
+            d.pop(pp.TIME_STEP_SOLUTIONS, None)
+        keys = ["p"] + sorted({k[2] for k in at_step[s]})
+        im = pp.Exporter(mdg, prefix, folder_name=tmp, export_constants_separately=True)
+        fn(im, keys)
+        mon.count("constants:imports")
+        for kind, i, e, d in ents:
+            for key in keys:
+                want = (encode(50 + s, i, e.num_cells, 1) if key == "p"
+                        else at_step[s].get((kind, i, key)))
+                if want is None:
+                    continue
+                got = np.asarray(pp.get_solution_values(key, d, time_step_index=0))
+                mon.count("constants:values_compared", got.size)
+                if got.shape != want.shape or not np.array_equal(got, want):
+                    ok, ver, idx, cell, comp = decode(got.ravel()[:1])
+                    mon.violation(
+                        "constants:not-the-values-of-the-imported-step",
+                        {"when": what, "step": s, "key": key, "entity": [kind, i],
+                         "got_first": got.ravel()[:3], "want_first": want[:3],
+                         "got_definition_no": int(ver[0]) if ver.size else None})
+                    return
+
+    last = nsteps - 1
+    imported("import_from_pvd(collection)", last,
+             lambda im, keys: im.import_from_pvd(tmp / f"{prefix}.pvd", keys=keys))
+    s = int(rng.integers(0, nsteps))
+    imported("import_from_pvd(is_mdg_pvd)", s,
+             lambda im, keys: im.import_from_pvd(tmp / f"{prefix}_{str(s).zfill(6)}.pvd",
+                                                 is_mdg_pvd=True, keys=keys))
+
+
 def check(case, mon):
     tmp = Path(tempfile.mkdtemp(prefix="c38_", dir="/tmp"))
     try:
         _run(case, mon, tmp)
         _time_information(case, mon, tmp)
+        _constants(case, mon, tmp)
     finally:
         shutil.rmtree(tmp, ignore_errors=True)
         mon.count("tmpdirs_removed")
